@@ -105,6 +105,7 @@ class Gen:
         self.sort = {}                      # line index -> sort
         self.parts = {}                     # line index -> {accessor: line index of the part op}
         self.links_set = set()              # (canonical object, slot)
+        self.base_types = set()             # canonical objects used as the type of a base-class subobject
         self.canon = {}                     # line index -> canonical object id (parts fetched twice are the same object)
         self.scope_names = {}               # canonical scope -> {spelling: (kind, [type refs])}
         self.idents = []                    # (line index, spelling)
@@ -219,8 +220,9 @@ class Gen:
             sort = 'ClassicPushable' if name in CLASSIC else 'Pushable'
         elif name in CLASSIC:
             sort = 'Classic'
-        if name in ('make_id_expr', 'make_id_expr_d'):
-            sort = 'Id_expr'
+        if name == 'make_id_expr':
+            sort = 'Id_expr'            # make_id_expr(decl) records its resolution at construction (src/impl.cxx:1856-1861):
+                                        # not a link the client sets later, so `make_id_expr_d` stays a plain Expr
         if name in ('make_union', 'make_namespace'):
             sort = 'Udt'
         return self.emit(('mk %s %s' % (name, ' '.join(args))).strip(), sort)
@@ -289,8 +291,11 @@ class Gen:
             x = self.pick('Enum')
             return x is not None and self.emit('enumerator r%d r%d' % (x, n), 'Enumerator')
         if k == 'base':
-            x = self.pick('Class')
-            return x is not None and self.emit('base r%d r%d' % (x, self.pick('Type')), 'Base')
+            x, t = self.pick('Class'), self.pick('Type')
+            if x is None:
+                return None
+            self.base_types.add(self.canon[t])
+            return self.emit('base r%d r%d' % (x, t), 'Base')
         if k == 'handler':
             x = self.pick('Block')
             return x is not None and self.emit('handler r%d r%d r%d' % (x, n, self.pick('Type')), 'Handler')
@@ -311,6 +316,9 @@ class Gen:
         key = (self.canon[x], slot)
         if key in self.links_set:
             return None
+        if slot == 'id' and self.canon[x] in self.base_types:
+            return None     # Base_type::name() forwards to type().name() (include/ipr/interface:1821): naming a class AFTER it was
+                            # used as a base type changes what the base object reports -- a derived accessor the model does not mirror
         v = self.pick(osort)
         if v is None or v == x:
             return None
@@ -418,8 +426,8 @@ class Gen:
 def generate(tier, rng, table):
     g = Gen(rng, table)
     if tier == 'quick':
-        g.history(1100, 400, 50)
-        g.bursts([('farm', 20000), ('tree', 5000), ('pool', 20000), ('deque', 3000), ('scope', 1500), ('plist', 300), ('handlers', 60),
+        g.history(3000, 1500, 40)
+        g.bursts([('farm', 20000), ('tree', 5000), ('pool', 40000), ('deque', 3000), ('scope', 1500), ('plist', 300), ('handlers', 60),
                   ('xlist', 20000), ('regions', 3000), ('products', 600)])
     else:
         g.history(6500, 5000, 50)
@@ -524,6 +532,10 @@ class Oracle:
             elif l.startswith('#B '):
                 p = l.split()
                 self.bursts.append((int(p[1]), p[2]))
+            elif l.startswith('#O ') and w[0] not in ('obs', 'obs_all'):
+                p = l[3:].split(' ')                          # first observation, made right after the op that created the object
+                self.kind[p[0]] = p[1]
+                self.obs[p[0]] = dict(f.split('=', 1) for f in p[2:] if '=' in f)
         if w[0] in ('obs', 'obs_all'):
             return self.round(i, lines)
         if res is None:
@@ -560,7 +572,7 @@ class Oracle:
 
     def round(self, i, lines):
         self.stats['rounds'] += 1
-        new_obs, deltas = [], []
+        new_obs, deltas, checkpoint = [], [], None
         for l in lines:
             if l.startswith('#O '):
                 p = l[3:].split(' ')
@@ -575,20 +587,21 @@ class Oracle:
                 self.stats['observations'] += int(p[2])
                 self.stats['max_objects'] = max(self.stats['max_objects'], int(p[2]))
             elif l.startswith('#A '):
-                cur = dict(x.split('=') for x in l.split()[2:])
-                for n, d in self.digests.items():
-                    if n in cur and cur[n] != d and n not in self.changed_since_dump:
-                        return 'the digest of %s (%s) differs from the previous checkpoint although no change of it was reported' % (
-                            n, self.kind.get(n))
-                    if n in cur and cur[n] == d and n in self.changed_since_dump:
-                        pass
-                self.digests = cur
-                self.changed_since_dump = set()
+                checkpoint = dict(x.split('=') for x in l.split()[2:])
         # apply, then judge
         for n, f, a, b in deltas:
             if f != '!shape':
                 self.obs.setdefault(n, {})[f] = b
             self.changed_since_dump.add(n)
+        if checkpoint is not None:
+            # the digests of ALL objects (second, independent channel): an object whose digest moved between two checkpoints must
+            # have had a change reported in between (the changes of THIS round included: the `#D` lines precede the `#A` line)
+            for n, d in self.digests.items():
+                if n in checkpoint and checkpoint[n] != d and n not in self.changed_since_dump:
+                    return 'the digest of %s (%s) differs from the previous checkpoint although no change of it was reported' % (
+                        n, self.kind.get(n))
+            self.digests = checkpoint
+            self.changed_since_dump = set()
         added = {m for _, _, m, s in self.pending if m}
         added_types = set()
         for m in added:
@@ -617,7 +630,8 @@ class Oracle:
                     grown.add(n)
                     self.stats['grown'] += 1
             elif a in ('!L', '-'):
-                if not any(slot and target == n for _, target, _, slot in self.pending):
+                # the client set a link of that node, or of a node it forwards to (Base_type::name() is type().name())
+                if not any(slot and (target == n or target in self.reach(n, 2)) for _, target, _, slot in self.pending):
                     msg = 'an unset / empty accessor acquired a value although the client set no link of that node: ' + what
                 self.stats['links'] += 1
             elif f in ('size', 'try_block') and re.fullmatch(r'#\d+', a) and re.fullmatch(r'#\d+', b) and int(a[1:]) < int(b[1:]):
@@ -753,14 +767,17 @@ def run(tier):
         're-fetching every member at its index, by naming objects by address, and by AddressSanitizer on every re-read',
         'the histories never redeclare a name of a scope with a different declaration kind and never read a reserved spelling '
         '(both are outside what the model mirrors)',
+        'the histories never set the `id` of a class / enum after it was used as the type of a base-class subobject (Base_type::name() '
+        'forwards to type().name(), a derived accessor the model does not mirror) and never re-set the resolution of an id-expression '
+        'built from a declaration (set at construction)',
     ]
     return res.finish(info, rule='one random well-sorted history per run over %d factories of impl::Lexicon (unified get_*, generative '
                       'make_*, composites with regions/scopes/parameter lists), member additions (declarations and redeclarations into '
                       'regions/scopes/classes, parameters, enumerators, bases, handlers, expression lists, block statements), warehouse '
                       'reuse/extension/destruction, link settings, alias probes; the universal observer re-reads EVERY object ever seen '
-                      '(returned or reachable) after every op up to op %s and every 50 ops thereafter, then growth bursts into one '
+                      '(returned or reachable) right after the op that created it and again after every op up to op %s and every 40-50 ops thereafter, then growth bursts into one '
                       'farm/tree/pool/deque/scope/list/vector with sentinels observed before and after; a trace is the whole history'
-                      % (len(table), '400' if tier == 'quick' else '5000'))
+                      % (len(table), '1500' if tier == 'quick' else '5000'))
 
 
 def replay(path):
